@@ -450,7 +450,8 @@ class Labels(JSONField):
                             raise LabelException(f'Provided label value {v} for {k} must be in a valid '
                                                  f'range {self.LAMBDA_VALIDATORS[k][1]}')
 
-                self.__setattr__(k, v)
+                # keep our own copy of a list: the caller's list can change after it was validated
+                self.__setattr__(k, list(v) if isinstance(v, list) else v)
             except AttributeError:
                 report = f"Using logger {fl.get_logger()} Unable to set field {k} of labels, no such field available "\
                          f"{[k for k in self.__dict__.keys()]}"
